@@ -17,7 +17,10 @@ RULE = ('parseable trees: the bounded-exhaustive small trees of C02 *without* th
         'well-formed trees, and mangled ones (duplicate definitions, duplicate branches, -of-of, '
         ':instance written as a role, nested empty nodes, missing targets) re-parsed from their '
         'text, under default, AMR, no-op, mini-AMR and random role tables; plus accepted strings of '
-        'the C07 token corpus. Non-trivial: the tree has an inverted role, a re-entrancy, an '
+        'the C07 token corpus; mangled trees also write :instance-of / :TOP-of; a sixth of the texts is '
+        'also decoded through decode, codec.decode, loads, iterdecode and codec.iterdecode(lines) and '
+        'compared with interpret. Under AMR the reference inventory is the documented one and a third of '
+        'the roles come from it. Non-trivial: the tree has an inverted role, a re-entrancy, an '
         'alignment, a missing concept or is ill-formed.')
 ANCHORS = ['penman.layout:interpret', 'penman.layout:_interpret_node', 'penman.layout:_process_role',
            'penman.layout:_process_atomic', 'penman.surface:AlignmentMarker.from_string',
